@@ -66,6 +66,18 @@ def run(spec, out):
             out.evaluation()
             out.count(f"rule:{label}")
             out.distinct_key(f"{label}|{case.op}|{case.skeleton()}")
+            if isinstance(long, str) and long.startswith("MUST-RAISE:"):
+                r1 = execute(short, b)
+                want = long.split(":")[1]
+                if r1[0] == "exc" and type(r1[1]).__name__ in (want, "OperationNotSupportedError"):
+                    out.count("pairs_agree")
+                    out.count(f"agree:{label}")
+                else:
+                    got = "a value" if r1[0] == "ok" else type(r1[1]).__name__
+                    out.violation({"kind": "documented-rejection-missing", "rule": label, "got": "value" if r1[0] == "ok" else type(r1[1]).__name__, "family": case.family, "risk": risk},
+                                  {"rule": label, "short": {"fn": short["fn"], "desc": short["desc"]}, "shapes": [list(np.shape(t)) for t in short["tensors"]], "backend": b},
+                                  f"[{label}] {short['fn']}({short['desc']!r}) must raise {want} (no unique superset input), got {got}")
+                continue
             r1 = execute(short, b)
             r2 = execute(long, b)
             wit = {"rule": label, "short": {"fn": short["fn"], "desc": short["desc"], "kwargs": {k: repr(v) for k, v in short["kwargs"].items()}, "opts": {k: repr(v) for k, v in short["opts"].items()}},
@@ -96,7 +108,7 @@ def run(spec, out):
 def finalize(agg, tier, seed):
     c = agg.counters
     rules = ["implicit-vs-explicit-output", "number-vs-named-axis", "unbracketed-vs-bracketed", "ellipsis-vs-written-out", "extra-spaces", "rearrange-vs-id", "adjacent-brackets-merged",
-             "anonymous-vs-named-ellipsis", "scalar-vs-tuple-size", "keepdims-vs-parentheses", "unit-coordinate-bracket", "nested-arrow", "argfind-unit-bracket"]
+             "anonymous-vs-named-ellipsis", "scalar-vs-tuple-size", "keepdims-vs-parentheses", "unit-coordinate-bracket", "nested-arrow", "argfind-unit-bracket", "ambiguous-implicit-output-rejected"]
     for r in rules:
         if c.get(f"agree:{r}", 0) < 5:
             agg.inconclusive.append(f"rule {r}: only {c.get(f'agree:{r}', 0)} agreeing pairs observed")
